@@ -1,0 +1,102 @@
+//go:build verif
+
+package dhcp
+
+import (
+	"encoding/hex"
+	"fmt"
+	"net"
+)
+
+// Hooks for the C16 runtime monitor (ending a session releases everything it
+// held). Read-only snapshots and wrappers around unexported functions/fields;
+// nothing here has behaviour of its own.
+
+// VerifC16Snapshot returns copies of the pool's allocation state under the
+// pool's own mutex: MAC -> address, the free list in order, and the set of
+// addresses marked unavailable.
+func (p *Pool) VerifC16Snapshot() (allocated map[string]string, available []string, unavailable []string) {
+	p.mu.Lock()
+	defer p.mu.Unlock()
+	allocated = make(map[string]string, len(p.allocated))
+	for mac, ip := range p.allocated {
+		allocated[mac] = ip.String()
+	}
+	available = make([]string, 0, len(p.available))
+	for _, ip := range p.available {
+		available = append(available, ip.String())
+	}
+	unavailable = make([]string, 0, len(p.unavailable))
+	for ip := range p.unavailable {
+		unavailable = append(unavailable, ip)
+	}
+	return allocated, available, unavailable
+}
+
+// VerifC16Lease is a read-only copy of one lease table entry.
+type VerifC16Lease struct {
+	MAC       string
+	IP        string
+	PoolID    uint32
+	SessionID string
+	CircuitID string // hex
+	STag      uint16
+	CTag      uint16
+	ExpiresNS int64
+}
+
+// VerifC16Leases returns a copy of the lease table (MAC -> lease).
+func (s *Server) VerifC16Leases() map[string]VerifC16Lease {
+	s.leasesMu.RLock()
+	defer s.leasesMu.RUnlock()
+	out := make(map[string]VerifC16Lease, len(s.leases))
+	for mac, l := range s.leases {
+		if l == nil {
+			out[mac] = VerifC16Lease{MAC: mac}
+			continue
+		}
+		out[mac] = VerifC16Lease{
+			MAC: mac, IP: l.IP.String(), PoolID: l.PoolID, SessionID: l.SessionID,
+			CircuitID: hex.EncodeToString(l.CircuitID), STag: l.STag, CTag: l.CTag,
+			ExpiresNS: l.ExpiresAt.UnixNano(),
+		}
+	}
+	return out
+}
+
+// VerifC16CircuitIndex returns a copy of the circuit-id secondary index
+// (hex circuit-id -> MAC of the indexed lease).
+func (s *Server) VerifC16CircuitIndex() map[string]string {
+	s.leasesByCircuitIDMu.RLock()
+	defer s.leasesByCircuitIDMu.RUnlock()
+	out := make(map[string]string, len(s.leasesByCircuitID))
+	for k, l := range s.leasesByCircuitID {
+		if l == nil {
+			out[k] = ""
+			continue
+		}
+		out[k] = l.MAC.String()
+	}
+	return out
+}
+
+// VerifC16SetLeaseVLAN sets the QinQ context of an existing lease (the slow
+// path has no code that fills Lease.STag/CTag; the fields and every cleanup
+// path that reads them exist) and writes the fast path entries for it through
+// the server's own updateFastPathCache.
+func (s *Server) VerifC16SetLeaseVLAN(mac net.HardwareAddr, sTag, cTag uint16) error {
+	s.leasesMu.Lock()
+	l := s.leases[mac.String()]
+	if l != nil {
+		l.STag, l.CTag = sTag, cTag
+	}
+	s.leasesMu.Unlock()
+	if l == nil {
+		return fmt.Errorf("no lease for %s", mac)
+	}
+	pool := s.poolMgr.GetPool(l.PoolID)
+	if pool == nil {
+		return fmt.Errorf("no pool %d", l.PoolID)
+	}
+	return s.updateFastPathCache(mac, l, pool)
+}
